@@ -4,13 +4,17 @@
    rendition / leading / name / language attributes Start assigns, constant along the history;
    exactly one DEFAULT rendition (the user-marked one, else the first); the multivariant playlist
    lists exactly the rendition streams in order, with a URI iff the stream is not the leading one,
-   AUDIO group iff a rendition exists, variant URI = leading stream; BANDWIDTH >= AVERAGE >= 0.
+   AUDIO group iff a rendition exists, variant URI = leading stream; BANDWIDTH >= AVERAGE >= 0;
+   BANDWIDTH is the peak and AVERAGE-BANDWIDTH the mean bit rate of the listed segments
+   (c16_bandwidth_is_peak_and_mean: over the listed non-gap segments of positive duration, every
+   segment's own rate 8 x bytes / duration is at most BANDWIDTH, one of them attains it, and
+   AVERAGE-BANDWIDTH = 8 x total bytes / total duration).
    Established by the correspondence run + oracle only: the RFC 6381 strings, RESOLUTION and
    FRAME-RATE (SPS / sequence-header parsing is an oracle), the bandwidth values against the bytes
    actually served. *)
 From Coq Require Import List ZArith Bool.
 From GoHls Require Import Model.Mux Proofs.MuxStream Proofs.MuxLift Proofs.MuxWindow Proofs.MuxHistory
-  Proofs.MuxPlaylist Proofs.MuxMulti.
+  Proofs.MuxPlaylist Proofs.MuxMulti Proofs.MuxBandwidth.
 Import ListNotations.
 Local Open Scope Z_scope.
 
@@ -75,3 +79,16 @@ Theorem c16_bandwidth_order : forall segs mx avg,
   Forall (fun g => 0 <= sg_size g) segs -> bandwidth segs = Ok (mx, avg) -> 0 <= avg <= mx.
 Proof. exact bandwidth_order. Qed.
 Print Assumptions c16_bandwidth_order.
+
+Theorem c16_bandwidth_is_peak_and_mean : forall segs mx avg,
+  bandwidth segs = Ok (mx, avg) ->
+  let real := filter counted_seg segs in
+  let bytes := sumZf sg_size real in
+  let dur := sumZf sg_dur real in
+  (0 < dur ->
+     avg = Z.quot (8 * bytes * second) dur
+     /\ (forall g, In g real -> seg_rate g <= mx)
+     /\ (mx = 0 \/ exists g, In g real /\ mx = seg_rate g))
+  /\ (dur <= 0 -> mx = 0 /\ avg = 0).
+Proof. exact bandwidth_is_peak_and_mean. Qed.
+Print Assumptions c16_bandwidth_is_peak_and_mean.
